@@ -44,7 +44,8 @@ Definition compile_classes : list nat :=
 Definition usage_classes : list nat := [cls_UsageError].
 Definition other_exception_classes : list nat :=
   [cls_Exception; cls_KeyError; cls_RecursionError; cls_AssertionError; cls_VirtualMachineError;
-   cls_ConversionError; cls_MemoryError; cls_UnicodeDecodeError; cls_OSError].
+   cls_ConversionError; cls_MemoryError; cls_UnicodeDecodeError; cls_OSError;
+   cls_ValueError; cls_UnicodeEncodeError; cls_IndexError].
 Definition non_exception_classes : list nat :=
   [cls_KeyboardInterrupt; cls_SystemExit; cls_GeneratorExit; cls_BaseException].
 
